@@ -17,6 +17,7 @@ from .c11 import norm
 
 ID = "C14"
 LEVEL = "exploration"
+STUCK_S = 400  # a single case may legitimately take this long (seconds) before the runner calls it stuck
 WORKERS = 4
 RULE = (
     "Hypothesis-generated sequences of 1-30 input lines over the classes: valid compile request (unique numeric marker "
